@@ -211,6 +211,43 @@ class SessTrace:
                          j(self.tx), j(self.rx), j(self.ck)] + steps)
 
 
+def split_phases(case, trace):
+    """A case with K ops is a history of client sessions on one server context.  -> list of
+    (Case, trace) pairs, one per client: the credentials of that client, its ops, and the part of
+    the trace that belongs to it (the release at the start of the next K op included)."""
+    if not any(op.startswith("K") for op in case.ops):
+        return [(case, trace)]
+    head, ops = split_ops(trace)
+    out = []
+    cur = parse_case_line(case.line())
+    cur.kind = case.kind
+    cur.ops = []
+    cur.force = []
+    toks = list(head)
+    for op, ts in ops:
+        if op.startswith("K"):
+            before = ts[:ts.index("a.next")] if "a.next" in ts else ts
+            toks += ["|rel"] + before + ["|end"]
+            out.append((cur, " ".join(toks)))
+            f = op[1:].split(":")
+            nxt = parse_case_line(cur.line())
+            nxt.kind = case.kind
+            nxt.ops = []
+            nxt.csni = None if f[0] == "-" else f[0].encode()
+            if len(f) > 1:
+                nxt.ckey = b"" if f[1] == "." else bytes.fromhex(f[1])
+            if len(f) > 2:
+                nxt.cid = b"" if f[2] == "." else bytes.fromhex(f[2])
+            cur = nxt
+            toks = list(head)
+        else:
+            if op != "end":
+                cur.ops.append(op)
+            toks += ["|" + op] + ts
+    out.append((cur, " ".join(toks)))
+    return out
+
+
 def sendq_order_ambiguous(trace):
     """The context's send queue is ordered by expiry time; the model keeps submission order.
     They differ only when two Confirmables are in flight and one was retransmitted (NSTART > 1):
@@ -627,6 +664,48 @@ def gen_cases(r, n, tier):
         c = Case(seed=2, proto="udp", ops=["C"] + ops)
         c.kind = "udp/" + sn
         cases.append(c)
+    return cases
+
+
+def gen_sni_history(r, tier):
+    """2-4 client sessions with different SNI names and keys on ONE server context: the server's
+    SNI callback has a name -> key table with prefix-related names, the per-context cache of
+    libcoap sits in front of it, so the order of the handshakes matters"""
+    names = [b"dev", b"dev2", b"dev22", b"d", b"de", b"other", b"DEV2"]
+    keys = {b"dev": b"k-dev", b"dev2": b"k-dev2", b"dev22": b"k-dev22", b"d": b"k-d", b"other": b"k-other"}
+    table = [(n, b"h", k) for n, k in keys.items()]
+    table_nosni = table + [(b"", b"h", b"k-nosni")]
+    cases = []
+
+    def mk(seq, tbl, seed):
+        ops = []
+        for j, (n, k) in enumerate(seq):
+            if j == 0:
+                first = (n, k)
+            else:
+                ops.append("K%s:%s" % (n.decode() if n else "-", hx(k)))
+            ops += ["C", "qc%d" % (j + 1), "a"]
+        c = Case(seed=seed, fd0=seed % 2, csni=first[0] or None, ckey=first[1], shint=b"h", skey=b"unused",
+                 ssni=tbl, ops=ops)
+        c.kind = "sni-history"
+        return c
+    # every ordered pair (cached first, then a related name) x (own key | the other's key)
+    seed = 0
+    for a in names:
+        for b in names + [b""]:
+            if a == b:
+                continue
+            for kb in ("own", "other"):
+                ka = keys.get(a.lower(), b"k-unknown")
+                k2 = keys.get(b.lower(), b"k-nosni" if b == b"" else b"k-unknown") if kb == "own" else ka
+                for tbl in ((table,) if tier == "quick" else (table, table_nosni)):
+                    seed += 1
+                    cases.append(mk([(a, ka), (b, k2), (b, keys.get(b.lower(), b"k-unknown"))], tbl, seed))
+    n = 40 if tier == "quick" else 600
+    allkeys = list(keys.values()) + [b"k-nosni", b"k-unknown"]
+    for i in range(n):
+        seq = [(r.choice(names + [b""]), r.choice(allkeys)) for _ in range(r.randrange(2, 5))]
+        cases.append(mk(seq, r.choice([table, table_nosni]), 1000 + i))
     return cases
 
 
